@@ -44,7 +44,7 @@ Proof.
   intros Hst. rewrite run_alt. destruct r as [i | [a|] b inc]; cbn [print_range print_optz].
   - rewrite (run_number_print true i rest (op_stops_no_digit rest Hst)). eexists; reflexivity.
   - rewrite <- app_assoc. rewrite (run_number_print true a); [eexists; reflexivity|]. destruct inc; reflexivity.
-  - cbn [app]. destruct inc; cbn [dots app]; (rewrite run_number_fail; [|reflexivity|discriminate]); eexists; reflexivity.
+  - cbn [app]. destruct inc; cbn [dots app]; (rewrite run_number_fail; [|reflexivity|discriminate]); apply range_part_dots.
 Qed.
 
 Lemma run_rule_normal_atomic (id : rule) (body : peg rule) inp :
